@@ -30,8 +30,8 @@ LEVEL = "proof"
 ENGINES = ["lean-model", "pyextract", "kopfsim"]
 TIE = ("T: the facts that select the model variant — the orchestrator's done-callback on its ensemble tasks cancels it and the "
        "failure is re-raised (`fixed`); APINotFoundError is passed over; terminate_redundancies restarts exited tasks; scan_resources "
-       "gathers and cancels its requests; NO root task awaits the core tasks and their errors are re-raised before the cleanup "
-       "activity (`coreWatched := false`, finding C20-F6) — are re-extracted from the AST of orchestration.py / running.py / "
+       "gathers and cancels its requests; a root task (the stop-flag checker) awaits the core tasks and their errors are re-raised "
+       "after the cleanup activity (`coreWatched := true`, since /repo ed52a1a) — are re-extracted from the AST of orchestration.py / running.py / "
        "scanning.py on every run and proved equal to the model's claims (Kopf/Tie/C20.lean); "
        "A: whole-operator simulations of the real kopf.operator(); one global order log of the atomic segments of "
        "spawn_tasks/run_tasks/startup_cleanup_activities/orchestrator/watcher/worker/daemon_killer/daemons with virtual times, "
@@ -53,15 +53,16 @@ LEVEL_TEXT = (
     "exit_bound_partial (exit <= t0 + E + W + D + C + H from the moment run_tasks begins to stop) and "
     "failure_to_stop_bound_partial (ghost tFail = the first escalated failure: run_tasks begins to stop within 2(E+W+D), the "
     "operator is gone within 3(E+W+D) + C + H — the oracle's bound); noncooperative_exit_unbounded_witness shows that nothing "
-    "bounds a non-cooperative run (aiotasks.stop has no timeout). NOT met by the code, with witnesses replayed on real kopf: "
-    "core_failure_lingers_witness + core_failure_skips_cleanup_witness (open finding C20-F6: nobody awaits the credentials "
-    "retriever; proved repaired in the variant `coreWatched`: core_failure_stops_all), "
-    "worker_failure_reaches_watcher_partial + worker_failure_during_depletion_dropped_witness (open finding C20-F5: a worker "
+    "bounds a non-cooperative run (aiotasks.stop has no timeout). core_failure_stops_all (THE claim for the current tree "
+    "`coreWatched := true`: a failed core task fails the root task awaiting it at once, the cleanup is not skipped; "
+    "historical_core_failure_lingers_witness + historical_core_failure_skips_cleanup_witness are about the OLD code, finding "
+    "C20-F6 before /repo ed52a1a, and show that the hypothesis is needed). NOT met by the code, with a witness replayed on real "
+    "kopf: worker_failure_reaches_watcher_partial + worker_failure_during_depletion_dropped_witness (open finding C20-F5: a worker "
     "failing while its watcher depletes is only logged). historical_stream_failure_lingers_witness is about the OLD code "
     "(variant `fixed := false`, finding F3 before /repo 9ef1bcb) and only shows that the hypothesis `fixed` is needed. The "
     "hand-written model is tied to the code by (T) an AST extraction of the variant-selecting facts re-proved equal on every run "
     "and (A) trace acceptance (labels and timing) of seeded whole-operator histories. Defects met by this check and repaired in "
-    "/repo since: F3 (9ef1bcb), C20-F2 (ca0106f), C20-F4 (06bf1c1); their witnesses stay in the corpus and their oracle clauses "
+    "/repo since: F3 (9ef1bcb), C20-F2 (ca0106f), C20-F4 (06bf1c1), C20-F6 (ed52a1a); their witnesses stay in the corpus and their oracle clauses "
     "stay strict.")
 THEOREMS = [("Kopf.Props.C20", "Kopf.C20." + n) for n in [
     "no_api_before_startup", "failed_startup_no_api", "ready_after_startup", "root_failure_stops_all",
@@ -69,8 +70,8 @@ THEOREMS = [("Kopf.Props.C20", "Kopf.C20." + n) for n in [
     "withdrawal_may_fail_witness", "worker_failure_reaches_watcher_partial", "worker_failure_during_depletion_dropped_witness",
     "worker_failure_stops_all", "exit_bound_partial", "noncooperative_exit_unbounded_witness",
     "failure_to_stop_bound_partial", "stream_failure_stops_all", "gone_is_not_a_failure",
-    "historical_stream_failure_lingers_witness", "core_failure_lingers_witness", "core_failure_skips_cleanup_witness",
-    "core_failure_stops_all"]]
+    "historical_stream_failure_lingers_witness", "core_failure_stops_all", "historical_core_failure_lingers_witness",
+    "historical_core_failure_skips_cleanup_witness"]]
 TIE_THEOREMS = [("Kopf.Tie.C20", "Kopf.C20.Tie." + n) for n in [
     "escalates_eq", "head_is_fixed", "ignores_not_found_eq", "restarts_exited_eq", "scan_cancels_children_eq",
     "watches_core_eq", "head_core_variant"]]
@@ -82,7 +83,8 @@ RULE = ("seeded lifecycle histories: 0-2 startup handlers (ok / sleeping / tempo
         "ERROR on the resource / peering / CRD watch, a worker exception (poisoned event, failing memo copy), 500s on discovery "
         "(initial scan, re-scan from a CRD event) and on the peering keep-alive (also fails the withdrawal), startup and cleanup "
         "handler failures, deletion and re-creation of the served CRD (HTTP 404 in the watcher: not a failure; watched again), "
-        "login_fail (HTTP 401 invalidates the credentials, the re-login fails for good: the core task dies; without peering), "
+        "login_fail (HTTP 401 invalidates the credentials, the re-login fails for good: the core task dies and must stop the operator, "
+        "cleanup handlers included), "
         "worker_fail_depletion (a poisoned event queued behind a handler in flight, then a stop: the worker fails while its "
         "watcher depletes), early_stop_peering (the API server applies a peering PATCH at once but answers 1/8-1/2 s later; the "
         "stop comes 4-16 ticks after startup, while the FIRST keep-alive is in flight: the record must still be withdrawn). "
@@ -113,8 +115,10 @@ ASSUMPTIONS = ["oracle bound = the bound of the Lean theorems + 1 s slack for re
                "PATCH are exempt from the oracle's 'record gone' clause)",
                "'daemons are stopped': cooperative daemons that got an exit stopper are over before the cleanup (cleanup_last, "
                "oracle); the others are 'hung tasks', cancelled after the cleanup, none alive at return",
-               "login_fail histories run without peering: with peering the dead vault also blocks the withdrawal PATCH, such an "
-               "operator cannot even be stopped gracefully (seen: still running 64 s after the stop flag) — part of C20-F6",
+               "login_fail histories run without peering: with peering the dead vault blocks the withdrawal PATCH for ever (the shielded "
+               "touch(lifetime=0) in keepalive's `finally:` waits for credentials nobody will provide): since ed52a1a the operator "
+               "begins to stop at once but operator() never returns (seen: still stopping 80 s later) — a non-cooperative run outside "
+               "the traces the model accepts; reported as a candidate finding (residual of C20-F6), not covered by this check",
                "sync handlers run inline (no real threads); liveness endpoint and _command root tasks are not started"]
 
 F3_SIG = {"site": "orchestration.orchestrator", "shape": "ensemble task ended with an exception while the operator keeps running"}
@@ -792,8 +796,8 @@ def gen_history(rng: Any, i: int, force: dict | None = None) -> dict:
     if trigger == "early_stop_peering":
         peering = True
     if trigger == "login_fail":
-        # with peering the dead vault also blocks the withdrawal PATCH for ever: such an operator cannot even be stopped
-        # gracefully (seen: still running 64 s after the stop flag) — a non-cooperative run, outside the traces the model accepts
+        # with peering the dead vault blocks the withdrawal PATCH for ever: the operator begins to stop but never returns
+        # (candidate finding, see ASSUMPTIONS) — a non-cooperative run, outside the traces the model accepts
         peering = False
     handlers: list[dict] = []
     shape: dict[str, Any] = {"trigger": trigger, "peering": peering}
